@@ -67,6 +67,9 @@ type Mesh struct {
 type Options struct {
 	MinNodes, MaxNodes int
 	IdentBase          int
+	// StateDir, if set, gives every router a JSON state file <StateDir>/r<i>.json (the storage
+	// package must then be compiled against the simulated disk).
+	StateDir string
 }
 
 func topology(tp *core.Tape, n int) (kind string, edges [][2]int) {
@@ -144,23 +147,14 @@ func Build(e *core.Env, o Options) *Mesh {
 	}
 	e.Cleanup(ms.StopAll)
 	for i := 0; i < n; i++ {
-		cfg, err := stores[i].Parse()
-		if err != nil {
-			e.Infra("fullmesh: configuration refused: %v", err)
+		if o.StateDir != "" {
+			stores[i].System.StatePath = fmt.Sprintf("%s/r%d.json", o.StateDir, i)
 		}
-		in, err := mycoria.New("fullmesh", cfg)
-		if err != nil {
-			e.Infra("fullmesh: New: %v", err)
+		ms.Insts = append(ms.Insts, &Inst{I: i, Name: fmt.Sprintf("r%d", i), Store: stores[i]})
+		if err := ms.Construct(i); err != nil {
+			e.Infra("fullmesh: %v", err)
 		}
-		x := &Inst{I: i, Name: fmt.Sprintf("r%d", i), In: in, IP: in.Identity().IP, Alerts: mgr.NewAlertMgr(nil), Store: stores[i]}
-		for _, mm := range []*mgr.Manager{in.State().Manager(), in.Peering().Manager(), in.Switch().Manager(), in.Router().Manager()} {
-			mm.SetWorkerErrorMgr(x.Alerts)
-		}
-		if err := in.Router().RegisterPingHandler(&probeHandler{ms: ms, at: i}); err != nil {
-			e.Infra("fullmesh: register probe handler: %v", err)
-		}
-		ms.Insts = append(ms.Insts, x)
-		ms.ByIP[x.IP] = i
+		ms.ByIP[ms.Insts[i].IP] = i
 	}
 	for _, i := range tp.Perm(n) {
 		x := ms.Insts[i]
@@ -172,6 +166,28 @@ func Build(e *core.Env, o Options) *Mesh {
 		cn.RunFor(tp, time.Duration(tp.Intn(1500))*time.Millisecond, 5000)
 	}
 	return ms
+}
+
+// Construct builds (again) the instance of router i from its configuration: what a start of the
+// process does. The previous instance object, if any, is dropped. It does not start it.
+func (ms *Mesh) Construct(i int) error {
+	x := ms.Insts[i]
+	cfg, err := x.Store.Parse()
+	if err != nil {
+		return fmt.Errorf("configuration refused: %w", err)
+	}
+	in, err := mycoria.New("fullmesh", cfg)
+	if err != nil {
+		return fmt.Errorf("New: %w", err)
+	}
+	x.In, x.IP, x.Alerts, x.Up = in, in.Identity().IP, mgr.NewAlertMgr(nil), false
+	for _, mm := range []*mgr.Manager{in.State().Manager(), in.Peering().Manager(), in.Switch().Manager(), in.Router().Manager()} {
+		mm.SetWorkerErrorMgr(x.Alerts)
+	}
+	if err := in.Router().RegisterPingHandler(&probeHandler{ms: ms, at: i}); err != nil {
+		return fmt.Errorf("register probe handler: %w", err)
+	}
+	return nil
 }
 
 // StopAll stops every running instance and closes all connections.
